@@ -81,6 +81,7 @@ class Tracer:
         self.reads, self.writes, self.other_actions = set(), set(), set()
         self.connections = 0
         self.fired = False
+        self.rc = None         # what main() returned to its caller (None: it raised)
         self._interrupt = False
         self._open = []
 
@@ -273,7 +274,8 @@ def _memo_parsers(ui):
 
 def run_cli(argv, at=None, mode=None, spill=False, fast=False):
     """Run the spowtd command line in this process under a Tracer.
-    Returns (tracer, exception or None).  fast: reuse the argument parsers and
+    Returns (tracer, exception or None); tracer.rc = the status main() returned (None when it
+    raised): a command can report failure by its status without raising.  fast: reuse the argument parsers and
     switch fsync off (in-process fault enumeration)."""
     import contextlib
     import io
@@ -285,7 +287,7 @@ def run_cli(argv, at=None, mode=None, spill=False, fast=False):
     with tr:
         try:
             with contextlib.redirect_stdout(io.StringIO()), contextlib.redirect_stderr(io.StringIO()):
-                ui.main([str(a) for a in argv])
+                tr.rc = ui.main([str(a) for a in argv])
         except SystemExit as e:
             exc = e
         except BaseException as e:  # pylint: disable=broad-except
@@ -311,7 +313,7 @@ def main(argv):
     if a.report:
         with open(a.report, 'w') as f:
             json.dump(dict(summary=tr.summary(), exc=repr(exc) if exc else None), f)
-    return 0 if exc is None else 3
+    return 0 if exc is None and not tr.rc else 3
 
 
 if __name__ == '__main__':
